@@ -1,0 +1,100 @@
+// Copyright 2020-2025 Buf Technologies, Inc.
+//
+// Licensed under the Apache License, Version 2.0 (the "License");
+// you may not use this file except in compliance with the License.
+// You may obtain a copy of the License at
+//
+//      http://www.apache.org/licenses/LICENSE-2.0
+//
+// Unless required by applicable law or agreed to in writing, software
+// distributed under the License is distributed on an "AS IS" BASIS,
+// WITHOUT WARRANTIES OR CONDITIONS OF ANY KIND, either express or implied.
+// See the License for the specific language governing permissions and
+// limitations under the License.
+
+//go:build verif
+
+package bufanalysis
+
+// Contracts for the gocv verifier (see /verif/DESIGN.md), author ca-r4f. Comment-only.
+// Spec functions / lemmas rf_*: /verif/specs/R4f.spec.
+//
+// ---- the --error-format names (C20: "all error formats") ----
+// The name tables: five formats, each with exactly one canonical name; "gcc" is the only alias (of text); the two display
+// lists name exactly the canonical names / the accepted names.
+//@ table rf_formatToString {C20} of formatToString
+//@   ensures five-formats: forall f Format :: (f in formatToString) <==> (f == FormatText || f == FormatJSON || f == FormatMSVS || f == FormatJUnit || f == FormatGithubActions)
+//@   ensures names: formatToString[FormatText] == "text" && formatToString[FormatJSON] == "json" && formatToString[FormatMSVS] == "msvs" && formatToString[FormatJUnit] == "junit" && formatToString[FormatGithubActions] == "github-actions"
+//@ table rf_stringToFormat {C20} of stringToFormat
+//@   ensures six-names: forall k string :: (k in stringToFormat) <==> (k == "text" || k == "gcc" || k == "json" || k == "msvs" || k == "junit" || k == "github-actions")
+//@   ensures formats: stringToFormat["text"] == FormatText && stringToFormat["gcc"] == FormatText && stringToFormat["json"] == FormatJSON && stringToFormat["msvs"] == FormatMSVS && stringToFormat["junit"] == FormatJUnit && stringToFormat["github-actions"] == FormatGithubActions
+//@ table rf_allFormatStrings {C20} of AllFormatStrings
+//@   ensures the-canonical-names: len(AllFormatStrings) == 5 && AllFormatStrings[0] == "text" && AllFormatStrings[1] == "json" && AllFormatStrings[2] == "msvs" && AllFormatStrings[3] == "junit" && AllFormatStrings[4] == "github-actions"
+//@ table rf_allFormatStringsWithAliases {C20} of AllFormatStringsWithAliases
+//@   ensures the-accepted-names: len(AllFormatStringsWithAliases) == 6 && AllFormatStringsWithAliases[0] == "text" && AllFormatStringsWithAliases[1] == "gcc" && AllFormatStringsWithAliases[2] == "json" && AllFormatStringsWithAliases[3] == "msvs" && AllFormatStringsWithAliases[4] == "junit" && AllFormatStringsWithAliases[5] == "github-actions"
+// The cross-table facts (each format has exactly one canonical name and parses back to itself; gcc is the only alias; the two
+// display lists are exactly the canonical / the accepted names) are lemmas rf_format-* in /verif/specs/R4f.spec, proved from
+// rf_formatTables(0) = the conjunction of the table clauses above.
+//
+// Format.String: the canonical name of a known format (the decimal number of an unknown one).
+//@ pure func (f Format) String() (r)
+//@   property C20
+//@   ensures known: f in formatToString ==> r == formatToString[f]
+//@   ensures unknown-is-decimal: !(f in formatToString) ==> r == decimal(f)
+//
+// ParseFormat: case and surrounding blanks are ignored; the empty name means text; every accepted name gives its format; any
+// other name is an error (PrintFileAnnotationSet returns it: an operational error, not status 100). Parsing reverses printing.
+//@ func ParseFormat(s) (r, err)
+//@   property C20
+//@   ensures empty-is-text: strings.ToLower(strings.TrimSpace(s)) == "" ==> r == FormatText && err == nil
+//@   ensures known: strings.ToLower(strings.TrimSpace(s)) != "" && strings.ToLower(strings.TrimSpace(s)) in stringToFormat ==> err == nil && r == stringToFormat[strings.ToLower(strings.TrimSpace(s))]
+//@   ensures unknown-rejected: strings.ToLower(strings.TrimSpace(s)) != "" && !(strings.ToLower(strings.TrimSpace(s)) in stringToFormat) ==> err != nil && r == 0
+//@   ensures round-trip: rf_formatTables(0) ==> (forall f Format :: f in formatToString && strings.ToLower(strings.TrimSpace(s)) == f.String() ==> err == nil && r == f)
+//@   ensures result-is-a-format: rf_formatTables(0) && err == nil ==> r in formatToString
+//@   canary ensures err == nil
+//@   canary ensures err != nil
+//
+// ---- one annotation: construction stores every field unchanged, the accessors return exactly what was stored ----
+// (C20 "agreeing on every field the format carries": all printers read the annotation through these accessors)
+//@ func newFileAnnotation(fileInfo, startLine, startColumn, endLine, endColumn, typeString, message, pluginName) (r)
+//@   property C20
+//@   modifies heap
+//@   ensures stores-every-field: r != nil && r.fileInfo == fileInfo && r.startLine == startLine && r.startColumn == startColumn && r.endLine == endLine && r.endColumn == endColumn && r.typeString == typeString && r.message == message && r.pluginName == pluginName
+//@   ensures fresh: !old(allocated(r)) && allocated(r)
+//
+// (NewFileAnnotation has a TRUSTED contract in bufprotocompile/zz_verif_contracts.go: "stores what it is given", stated over the
+// interface accessors. Its two halves are verified here: newFileAnnotation stores every field, each accessor of *fileAnnotation
+// returns the stored field; what stays trusted is only the dispatch from the interface to *fileAnnotation.)
+//
+//@ func (f *fileAnnotation) FileInfo() (r)
+//@   property C20
+//@   ensures returns-stored-field: r == f.fileInfo
+//@ func (f *fileAnnotation) StartLine() (r)
+//@   property C20
+//@   ensures returns-stored-field: r == f.startLine
+//@ func (f *fileAnnotation) StartColumn() (r)
+//@   property C20
+//@   ensures returns-stored-field: r == f.startColumn
+//@ func (f *fileAnnotation) EndLine() (r)
+//@   property C20
+//@   ensures returns-stored-field: r == f.endLine
+//@ func (f *fileAnnotation) EndColumn() (r)
+//@   property C20
+//@   ensures returns-stored-field: r == f.endColumn
+//@ func (f *fileAnnotation) Type() (r)
+//@   property C20
+//@   ensures returns-stored-field: r == f.typeString
+//@ func (f *fileAnnotation) Message() (r)
+//@   property C20
+//@   ensures returns-stored-field: r == f.message
+//@ func (f *fileAnnotation) PluginName() (r)
+//@   property C20
+//@   ensures returns-stored-field: r == f.pluginName
+//
+// ---- the sort adapter (C02): Less is verified to be k_annBefore (zz_verif_contracts_order.go); here the rest of sort.Interface
+// and, in /verif/specs/R4f.spec, that k_annBefore is a strict weak order (lemmas rf_before-*), which is what sort.Stable needs
+// for a result that does not depend on the input order up to ties.
+//@ func (a sortFileAnnotationSlice) Len() (r)
+//@   property C02
+//@   ensures length: r == len(a)
+// (Swap is not under contract: "out-of-fragment: element write through a slice that is not locally created (aliasing not modelled)")
